@@ -120,7 +120,11 @@ LEVEL_TEXT = ('Theorems (Lean 4, for ALL operands, heaps incl. cyclic ones, recu
               'script model the parser produces - `function f(...):`, 0-256 parameters / arguments, empty bodies, bare return / jump, empty '
               'files - executed, never called or called: nothing escapes, nothing is reported that did not fail) and layered-errors (20 failing '
               'statements under every stack of includes 0-65 deep, functions, callbacks, blocks, re-entering host functions: a documented '
-              'exception arrives as a documented exception, a contained failure stays contained).')
+              'exception arrives as a documented exception, a contained failure stays contained) and arity (the argument COUNT of what the '
+              'evaluator binds itself, outside the wrapper: the built-in if with 0-8 and up to 256 arguments, script functions with 0-8 parameters '
+              'x 0-10 arguments, every library function / expression built-in with 0 .. declared + 3 arguments, at 11 statement sites at top level / '
+              'in a function / in an included file / in a function of an included file and at 14 stand-alone expression sites: nothing escapes, the '
+              'statement after the call runs - inside the function too -, no failure line names if or a script function).')
 LEVEL_NOTE = ('Trusted: Lean kernel; correspondence harness (pools, reference reading of the block and of the wrapper). Modelled not '
               'verified: CPython int/float arithmetic, libm pow, datetime/timedelta, json encoder failure modes, str(int) digit '
               'limit (all parameters or explicit cases of BareModel/HostPy.lean, sampled by stream binop-host). Library function '
@@ -3723,6 +3727,262 @@ def stream_layered(ctx, mods, n_random, name='layered-errors'):
 
 
 # ---------------------------------------------------------------------------------------------------------------------
+# stream arity: the NUMBER of arguments as an axis of its own.  Wrong argument counts of a library function are a matter
+# of value_args_validate INSIDE the call wrapper; but the evaluator binds and special-cases things itself, OUTSIDE the
+# wrapper: the lazily evaluated built-in `if` (its condition / true / false expressions are picked from the argument list
+# before anything is called), the argument list of every call (evaluated before the try block), the parameters of a script
+# function (_script_function: missing -> null, surplus ignored, `...` collects the rest), and the statements around them
+# (assignment, expression statement, return, jumpif and the blocks lowered to it).  The parser accepts ANY number of
+# arguments everywhere, so every count 0 .. 8 (`if`), 0 .. declared + 3 (library functions / expression built-ins), 0 .. 10
+# arguments against 0 .. 8 parameters (script functions) is a parsed script / expression.
+# ---------------------------------------------------------------------------------------------------------------------
+
+ARITY_ARGS = ['1', "'s'", 'null', 'true', '2', 'arrayNew(3, 1, 2)', "objectNew('a', 1)", '0', '1 / 0', 'arrayGet(null, 0)', 'gnum', 'sfn0', 'arrayLength',
+              "'a'", 'false', '10 ** 1000', "if(true, 'in')", 'sfn0(1, 2, 3)']
+ARITY_IF_CONDS = ['true', 'false', 'null', '1 / 0', 'arrayGet(null, 0)', 'gnum > 0', 'if(false, 1)', 'sfn0()']
+ARITY_SITES = {       # statements around the call @C@ (the parser lowers if / while / for blocks to jumpif statements)
+    'assign': ['rr = @C@'],
+    'expr': ['@C@'],
+    'return': ['return @C@'],
+    'jumpif': ['jumpif (@C@) askip', 'rr = 1', 'askip:', 'jumpif (!@C@) askip2', 'rr = 2', 'askip2:'],
+    'arg': ['rr = arrayNew(0, @C@, 2)'],
+    'operand': ['rr = 1 + @C@', "rs = @C@ + ''", 'rt = @C@ && @C@', 'ru = @C@ || -@C@'],
+    'ifblock': ['if @C@:', '    rr = 1', 'elif @C@:', '    rr = 2', 'else:', '    rr = 3', 'endif'],
+    'while': ['wi = 0', 'while wi < 2 && !(@C@ == wi):', '    wi = wi + 1', 'endwhile'],
+    'for': ['for fv in arrayNew(@C@, @C@):', '    rr = fv', 'endfor', 'for fw, fi in @C@:', '    rr = fw', 'endfor'],
+    'nested': ['rr = if(true, @C@, 0)', 'rs = if(false, 0, @C@)', 'rt = if(@C@, 1, 2)'],
+    'sfnarg': ['rr = sfn0(@C@)', 'rs = sfn0(1, @C@, @C@)'],
+}
+ARITY_XSITES = {      # stand-alone expressions around the call (evaluate_expression)
+    'bare': '@C@', 'operand': '1 + @C@', 'right': "@C@ + ''", 'and': 'true && @C@', 'or': 'null || @C@', 'unary': '!@C@', 'neg': '-@C@', 'group': '(@C@)',
+    'arg': 'arrayNew(0, @C@)', 'ifbranch': 'if(true, @C@, 0)', 'ifelse': 'if(false, 0, @C@)', 'ifcond': 'if(@C@, 1, 2)', 'sfnarg': 'sfn0(@C@)',
+    'aliasarg': 'max(0, len(text(@C@)))',
+}
+ARITY_LEVELS = ['top', 'fn', 'inc', 'incfn', 'expr']
+ARITY_BOUND = ('if', 'sfn', 'sfn0', 'wfn')            # what the evaluator binds itself: a call of these never "fails"
+ARITY_DEFAULT_DECLARED = 2                             # functions that take their arguments as they come (arrayNew, mathMax, ...)
+ARITY_MAY_RAISE = ()                                   # library functions that answer the pool with a DOCUMENTED exception (none on the unchanged tree)
+
+
+def arity_declared(fn):
+    """number of declared arguments of a library function: the argument model its code validates against (semantic: the
+    function's own globals), None if it takes the arguments as they come"""
+    while hasattr(fn, 'func') and hasattr(fn, 'args'):          # functools.partial
+        fn = fn.func
+    code = getattr(fn, '__code__', None)
+    if code is None:
+        return None
+    for nm in code.co_names:
+        if nm.endswith('_ARGS') and isinstance(fn.__globals__.get(nm), (list, tuple)):
+            return len(fn.__globals__[nm])
+    return None
+
+
+def arity_defs(callee):
+    defs = ['function sfn0():', '    return 0', 'endfunction']
+    if callee['t'] == 'sfn':
+        params = [f'p{i}' for i in range(callee['params'])]
+        defs += ['function sfn(' + ', '.join(params) + ('...' if callee.get('rest') else '') + '):',
+                 "    return arrayNew('sfn-ran'" + ''.join(', ' + p for p in params) + ')', 'endfunction']
+    return defs
+
+
+def arity_call(case):
+    return case['callee']['name'] + '(' + ', '.join(case['args']) + ')'
+
+
+def arity_text(case):
+    """-> (main text, files) of a script-level case"""
+    call = arity_call(case)
+    stmts = [ln.replace('@C@', call) for ln in ARITY_SITES[case['site']]]
+    defs = arity_defs(case['callee'])
+    level = case['level']
+    ind = lambda lines: ['    ' + ln for ln in lines]                    # noqa: E731
+    files = {}
+    if level == 'top':
+        main = defs + stmts
+    elif level == 'fn':
+        main = defs + ['function wfn(wa, wb):', "    systemLog('in-before')"] + ind(stmts) + ["    systemLog('in-after')", "    return 'fdone'", 'endfunction',
+                       'rv = wfn(1, 2)']
+    elif level == 'inc':
+        files['a.bare'] = '\n'.join(defs + stmts) + '\n'
+        main = ["include 'a.bare'"]
+    elif level == 'incfn':              # a function of an included file, called after the include
+        files['a.bare'] = '\n'.join(defs + ['function wfn(wa, wb):'] + ind(stmts) + ["    systemLog('in-after')", "    return 'fdone'", 'endfunction']) + '\n'
+        main = ["include 'a.bare'", 'rv = wfn()']
+    else:
+        raise ValueError(level)
+    tail = "return arrayNew('done', rv)" if level in ('fn', 'incfn') else "return 'done'"
+    return "systemLog('before')\ngnum = 5\n" + '\n'.join(main) + "\nsystemLog('END')\n" + tail + '\n', files
+
+
+def arity_failures(mods, case):
+    """-> [(oracle, expected, actual)]"""
+    cfg = case['config']
+    callee = case['callee']
+    log = []
+    lib_callee = callee['t'] in ('lib', 'alias')
+    if case['level'] == 'expr':
+        g = dict(mods['library'].SCRIPT_FUNCTIONS)
+        g['gnum'] = 5
+        # the host runs the script that defines the functions and then evaluates expressions with the SAME options (a script function
+        # called through evaluate_expression counts statements: it needs the 'statementCount' member execute_script left there)
+        options = make_options(cfg, log, g, files={}, maxStatements=3000)
+        pre = run_model(mods, parsed(mods, '\n'.join(arity_defs(callee)) + '\n'), options)
+        if pre != ('ok', None):
+            return [('script-escape' if pre[0] == 'escape' else 'execution-continues', 'function statements execute', list(pre))]
+        del log[:]
+        text = ARITY_XSITES[case['site']].replace('@C@', arity_call(case))
+        locals_ = {'lv': 1, 'gnum': 5} if case.get('locals') else None
+        out = run_model(mods, parsed(mods, text, expr=True), options, expr=True, locals_=locals_, builtins=case.get('builtins', True))
+    else:
+        text, files = arity_text(case)
+        options = make_options(cfg, log, {}, files=files, maxStatements=3000)
+        out = run_model(mods, parsed(mods, text), options)
+    if out[0] == 'escape':
+        return [('arity-escape', 'a BareScript value or BareScriptRuntimeError/BareScriptParserError', list(out))]
+    bad = []
+    names = [m.group(1) for ln in log if isinstance(ln, str) and (m := FAIL_RE.match(ln))]
+    spurious = [nm for nm in names if nm in ARITY_BOUND]
+    if spurious or (names and not cfg_logs(cfg)):
+        bad.append(('spurious-failure-log', 'no failure line for if / a script function', fail_lines(log)[:4]))
+    if out[0] != 'ok':
+        if not (lib_callee and callee['name'] in ARITY_MAY_RAISE):
+            bad.append(('execution-continues', 'ok', [out[0], str(out[1])[:160]]))
+        return bad
+    val = out[1]
+    if case['level'] == 'expr':
+        if not is_bare(val):
+            bad.append(('not-a-barescript-value', 'a BareScript value', safe_repr(val)))
+        if case['site'] == 'bare' and callee['t'] == 'sfn' and not (isinstance(val, list) and len(val) == callee['params'] + 1 and val[0] == 'sfn-ran'):
+            bad.append(('execution-continues', 'the script function ran to its return statement', safe_repr(val)))
+        return bad
+    ret_site = case['site'] == 'return'
+    level = case['level']
+    if level in ('fn', 'incfn'):
+        ok = isinstance(val, list) and len(val) == 2 and val[0] == 'done' and (is_bare(val[1]) if ret_site else val[1] == 'fdone')
+        want = ['done', '<value>' if ret_site else 'fdone']
+    elif level == 'top' and ret_site:
+        ok, want = is_bare(val), '<value>'
+    else:
+        ok, want = val == 'done', 'done'
+    if not ok:
+        bad.append(('execution-continues', want, safe_repr(val)))
+    if cfg['logFn'] and not (level == 'top' and ret_site):
+        if log[-1:] != ['END']:
+            bad.append(('execution-continues', 'END', log[-3:]))
+        elif level in ('fn', 'incfn') and not ret_site and 'in-after' not in log:
+            bad.append(('execution-continues', 'the statement after the call inside the function runs', log[-4:]))
+    return bad
+
+
+def arity_cases(ctx, mods, rng, n_random):
+    lib = mods['library']
+    cfgs = [REF_ON, REF_OFF] + EXTRA_CONFIGS
+    cases = []
+    script_sites = list(ARITY_SITES)
+    xsites = list(ARITY_XSITES)
+
+    def args_for(n, shift):
+        return [ARITY_ARGS[(shift + 5 * i) % len(ARITY_ARGS)] for i in range(n)]
+
+    def add(callee, args, site, level, cfg=None, **more):
+        if level == 'expr' and site not in ARITY_XSITES:
+            site = xsites[len(cases) % len(xsites)]
+        if level != 'expr' and site not in ARITY_SITES:
+            site = script_sites[len(cases) % len(script_sites)]
+        case = {'kind': 'arity', 'callee': callee, 'args': list(args), 'site': site, 'level': level, 'config': cfg or cfgs[len(cases) % len(cfgs)]}
+        if level == 'expr':
+            case['builtins'] = more.get('builtins', len(cases) % 3 != 0) or site == 'aliasarg' or callee['t'] == 'alias'
+            if len(cases) % 2:
+                case['locals'] = True
+        cases.append(case)
+
+    def spread(callee, args, full):
+        """the call at every level x site (full) or at one site per level in rotation"""
+        for level in ARITY_LEVELS:
+            if callee['t'] == 'alias' and level != 'expr':
+                continue
+            sites = xsites if level == 'expr' else script_sites
+            for site in (sites if full else [sites[(len(cases) + 3) % len(sites)]]):
+                add(callee, args, site, level, REF_ON if full and len(cases) % 2 else None)
+
+    # the built-in `if`: 0 .. 8 arguments x every kind of condition, every level x site
+    iff = {'t': 'if', 'name': 'if'}
+    for n in range(9):
+        for cix, cond in enumerate(ARITY_IF_CONDS):
+            if n == 0 and cix:
+                continue
+            spread(iff, ([cond] + args_for(n - 1, cix + n))[:n], full=not ctx.quick or cix < 3)
+    for n in [s for s in SIZES if 9 <= s <= 256]:          # the scale axis
+        spread(iff, ['gnum > 0'] + args_for(n - 1, n), full=False)
+    # script functions: 0 .. 8 parameters (with / without a rest parameter) x 0 .. 10 arguments
+    for params in range(9):
+        for rest in (False, True):
+            if rest and not params:
+                continue
+            for n in range(11):
+                spread({'t': 'sfn', 'name': 'sfn', 'params': params, 'rest': rest}, args_for(n, params + n), full=not ctx.quick and params in (0, 1, 3) and n < 6)
+    # every library function and expression built-in: 0 .. declared + 3 arguments
+    for table, kind in ((lib.SCRIPT_FUNCTIONS, 'lib'), (lib.EXPRESSION_FUNCTIONS, 'alias')):
+        for name in sorted(table):
+            declared = arity_declared(table[name])
+            for n in range((ARITY_DEFAULT_DECLARED if declared is None else declared) + 4):
+                callee = {'t': kind, 'name': name, 'declared': declared}
+                for shift in ((0, 1, 4) if not ctx.quick else (rng.randrange(len(ARITY_ARGS)),)):
+                    spread(callee, args_for(n, shift + n), full=False)
+    for _ in range(n_random):
+        pick = rng.random()
+        if pick < 0.4:
+            n = rng.choice([0, 1, 2, 3, 3, 4, 4, 5, 6, 7, 8, 12])
+            callee, args = iff, [rng.choice(ARITY_IF_CONDS + ARITY_ARGS) for _ in range(n)]
+        elif pick < 0.7:
+            callee = {'t': 'sfn', 'name': 'sfn', 'params': rng.randrange(9), 'rest': rng.random() < 0.4}
+            callee['rest'] = callee['rest'] and callee['params'] > 0
+            args = [rng.choice(ARITY_ARGS) for _ in range(rng.randrange(11))]
+        else:
+            kind = rng.choice(['lib', 'lib', 'alias'])
+            table = lib.SCRIPT_FUNCTIONS if kind == 'lib' else lib.EXPRESSION_FUNCTIONS
+            name = rng.choice(sorted(table))
+            declared = arity_declared(table[name])
+            callee = {'t': kind, 'name': name, 'declared': declared}
+            args = [rng.choice(ARITY_ARGS) for _ in range(rng.randrange((ARITY_DEFAULT_DECLARED if declared is None else declared) + 4))]
+        level = 'expr' if callee['t'] == 'alias' else rng.choice(ARITY_LEVELS)
+        add(callee, args, rng.choice(xsites if level == 'expr' else script_sites), level, rng.choice(cfgs))
+    return cases
+
+
+def stream_arity(ctx, mods, n_random, name='arity'):
+    st = ctx.stream(name, 'the NUMBER of arguments of everything the evaluator binds or special-cases itself, outside the call wrapper: the lazily evaluated built-in '
+                          f'`if` with 0 .. 8 and {[s for s in SIZES if 9 <= s <= 256]} arguments x {len(ARITY_IF_CONDS)} kinds of condition (true, false, null, a contained '
+                          'arithmetic / library failure, a nested if, a script function); script functions with 0 .. 8 parameters (with / without a rest parameter) '
+                          'called with 0 .. 10 arguments; every name of library.SCRIPT_FUNCTIONS and library.EXPRESSION_FUNCTIONS with 0 .. declared + 3 arguments '
+                          '(declared: the length of the argument model the function validates against, read from the function object) - the arguments drawn from '
+                          f'{len(ARITY_ARGS)} texts (constants, arrays, objects, contained failures, functions as values, nested calls); around the call {len(ARITY_SITES)} '
+                          'statement sites (assignment, expression statement, return, jumpif, call argument, operator operand, if / elif, while, for, if() branch, '
+                          f'script-function argument) at top level, inside a script function, in an included file, in a function of an included file, and {len(ARITY_XSITES)} '
+                          'stand-alone expression sites through evaluate_expression (builtins on / off, with / without locals) x debug True/False/absent x logFn '
+                          'supplied/absent. Implementation-side oracle (no Lean counterpart: the model has no argument-count axis for `if`): no host exception '
+                          'escapes, the result is a BareScript value, the statement after the call runs (also INSIDE the function: a host exception swallowed by the '
+                          "enclosing call's wrapper would end the function early), no failure line names if / a script function. non-trivial = the argument count "
+                          'differs from the declared / documented one')
+    rng = ctx.rng(name)
+    for case in arity_cases(ctx, mods, rng, n_random):
+        bad = arity_failures(mods, case)
+        callee = case['callee']
+        n = len(case['args'])
+        if callee['t'] == 'if':
+            odd = n not in (2, 3)
+        elif callee['t'] == 'sfn':
+            odd = n != callee['params']
+        else:
+            odd = callee.get('declared') is None or n != callee['declared']
+        st.case(case, nontrivial=odd, tags=['callee-' + callee['t'], 'nargs-' + str(min(n, 11)), 'site-' + case['site'], 'level-' + case['level'], cfg_tag(case['config'])])
+        for oracle, want, got in bad:
+            ctx.witness(oracle, case, want, got)
+
+
+# ---------------------------------------------------------------------------------------------------------------------
 # corpus, entry points
 # ---------------------------------------------------------------------------------------------------------------------
 
@@ -3778,6 +4038,7 @@ def streams(ctx):
     stream_host_reentry(ctx, mods, ctx.scale(3000, 40000))
     stream_script_shapes(ctx, mods, ctx.scale(2000, 30000))
     stream_layered(ctx, mods, ctx.scale(4000, 60000))
+    stream_arity(ctx, mods, ctx.scale(1500, 30000))
 
 
 def disagreement_known(d, known):
@@ -3796,6 +4057,7 @@ def search(ctx):
         stream_host_reentry(ctx, mods, 3000, name='search-host-reentry')
         stream_script_shapes(ctx, mods, 2000, name='search-script-shapes')
         stream_layered(ctx, mods, 3000, name='search-layered')
+        stream_arity(ctx, mods, 4000, name='search-arity')
         if not ctx.witnesses:
             stream_text(ctx, mods, len(ADV_LINES) + 3000, name='search-text')
         if ctx.driver is not None and not ctx.witnesses:
@@ -3875,6 +4137,8 @@ def replay(witness):
         return bool(shape_failures(mods, inp))
     if kind == 'layered':
         return bool(layered_failures(mods, inp))
+    if kind == 'arity':
+        return bool(arity_failures(mods, inp))
     if kind == 'deep':
         res = deep_run(mods, inp['spec'])
         return res is not None and res[0][0] == 'escape'
